@@ -105,11 +105,9 @@ func AppendHazard(root reflect.Value) error {
 // lists, as an element of a longer-lived structure would — was modified by the second decode. No decoder of the
 // library writes into memory reachable from the receiver's previous value, with one documented exception
 // (rhp2.RPCReadResponse reuses the capacity of Data: "for maximum efficiency, we should be doing this for every
-// slice, but in most cases the extra performance isn't worth the aliasing issues").
+// slice, but in most cases the extra performance isn't worth the aliasing issues"). For every type, that one included,
+// the variable must afterwards hold exactly the second message — what decoding it into a fresh variable gives.
 func ReuseReceiver(e *Entry, enc1, enc2 []byte) (err error) {
-	if e.Name == "rhp2.RPCReadResponse" {
-		return nil
-	}
 	p := reflect.New(e.Type)
 	df, ok := p.Interface().(types.DecoderFrom)
 	if !ok {
@@ -131,7 +129,30 @@ func ReuseReceiver(e *Entry, enc1, enc2 []byte) (err error) {
 	if eerr != nil {
 		return nil
 	}
-	df.DecodeFrom(types.NewBufDecoder(enc2))
+	d2 := types.NewBufDecoder(enc2)
+	df.DecodeFrom(d2)
+	// (a) the variable now holds the second message, exactly as a fresh variable would (nothing of the first message
+	// shows through: no stale length, no stale tail, no field left over)
+	if d2.Err() == nil {
+		fresh := reflect.New(e.Type)
+		fd := types.NewBufDecoder(enc2)
+		fresh.Interface().(types.DecoderFrom).DecodeFrom(fd)
+		if fd.Err() == nil {
+			got, gerr := e.Encode(p.Elem())
+			want, werr := e.Encode(fresh.Elem())
+			if gerr == nil && werr == nil && string(got) != string(want) {
+				i := 0
+				for i < len(got) && i < len(want) && got[i] == want[i] {
+					i++
+				}
+				return fmt.Errorf("decoding a second message into a variable that already held a decoded message gives a different value than decoding it into a fresh variable (encodings %d vs %d bytes, first difference at byte %d)", len(got), len(want), i)
+			}
+		}
+	}
+	// (b) the value obtained from the first decode is left alone
+	if e.Name == "rhp2.RPCReadResponse" {
+		return nil // documented reuse of Data's capacity
+	}
 	after, eerr := e.Encode(held)
 	if eerr != nil {
 		return fmt.Errorf("the value held from the first decode cannot be encoded any more after a second decode into the same variable")
